@@ -115,7 +115,7 @@ void FieldGenerator::GenerateDescriptorInitializerGeneric(google::protobuf::io::
   variables["TYPE"] = type_macro;
   variables["classname"] = FullNameToC(FieldScope(descriptor_)->full_name(), FieldScope(descriptor_)->file());
   variables["name"] = FieldName(descriptor_);
-  if (opt.use_oneof_field_name())
+  if (opt.use_oneof_field_name() && oneof != NULL)
     variables["proto_name"] = std::string(oneof->name());
   else
     variables["proto_name"] = std::string(descriptor_->name());
